@@ -169,7 +169,32 @@ pub fn withdraw(
     amount: Uint128,
     pre_paid_shortfall: Uint128,
 ) -> StdResult<Vec<SubMsg>> {
+    withdraw_all(
+        deps,
+        env,
+        state,
+        eligible_collateral,
+        &[(receiver, amount)],
+        pre_paid_shortfall,
+    )
+}
+
+/// Pays several receivers out of the vault in one transaction. The vault's shortfall is computed on
+/// the sum of the payments and is withdrawn from the insurance fund before any of them is sent.
+pub fn withdraw_all(
+    deps: Deps,
+    env: Env,
+    state: &mut State,
+    eligible_collateral: AssetInfo,
+    payments: &[(&Addr, Uint128)],
+    pre_paid_shortfall: Uint128,
+) -> StdResult<Vec<SubMsg>> {
     let token_balance = query_token_balance(deps, eligible_collateral, env.contract.address)?;
+
+    let mut amount = Uint128::zero();
+    for (_, payment) in payments.iter() {
+        amount = amount.checked_add(*payment)?;
+    }
 
     let mut messages: Vec<SubMsg> = vec![];
 
@@ -182,7 +207,9 @@ pub fn withdraw(
         messages.push(execute_insurance_fund_withdrawal(deps, shortfall).unwrap());
     }
 
-    messages.push(execute_transfer(deps.storage, receiver, amount).unwrap());
+    for (receiver, payment) in payments.iter() {
+        messages.push(execute_transfer(deps.storage, receiver, *payment).unwrap());
+    }
 
     Ok(messages)
 }
